@@ -458,6 +458,10 @@ def _variant_sweep(ctx, ad, what, extra_pad=0, per_variant_quick=4, per_variant_
             continue
         lines = [ad.line("episode", insts[r], ep.actions[r]) for r in range(len(insts))]
         replies = ctx.driver.ask_many(lines)
+        # the environment built from the statement-level translation (Generated/MtvrpEnv.lean) against the real code
+        for r, rep in enumerate(ctx.driver.ask_many([ad.line("episodegen", insts[r], ep.actions[r]) for r in range(len(insts))])):
+            envcorr.compare_trace(ctx, ad, insts[r], ep.actions[r], ep.masks[r], ep.done[r], rep, f"{what} generated definitions")
+            ctx.count("mtvrp.generated-env-traces")
         names = env.get_variant_names(td0)
         for r, inst in enumerate(insts):
             f = envcorr.compare_trace(ctx, ad, inst, ep.actions[r], ep.masks[r], ep.done[r], replies[r], f"{what} 16-variant batch")
@@ -872,7 +876,11 @@ def run_c06(ctx):
     _batch_capacity_cases(ctx, ad, env)
     _mixed_batch_checker(ctx, ad, env)
     _static_assert_cases(ctx, ad, env)
-    _nonterminating_is_a_disagreement(ctx)
+    # C06 is about the CHECKER: an episode of the real env that does not finish is the mask's problem (reported by
+    # C01–C05, where it is a model≠code disagreement); here it only means that one source of action lists is missing
+    k = ctx.counts.get("mtvrp.nonterminating-episode-skipped", 0)
+    if k:
+        ctx.note(f"mtvrp: {k} mask-generated episodes did not finish and were skipped (not a checker matter; see C01/C02)")
 
 
 def _judge_cases(ctx, ad, env, cases):
@@ -902,6 +910,12 @@ def _judge_cases(ctx, ad, env, cases):
                           "omissions: backhaul order, open-route depot deadline, trailing route's way back)",
                           {"inst": inst, "variant": variant_of(inst), "label": lab, "actions": sol,
                            "real_accepts": acc, "verdicts": f})
+        # the repaired checker model (all three omissions repaired) decides feasibility exactly (`checkR_fixed_iff`)
+        if f.get("wf") == "1" and f.get("cStaticR") == "1" and f.get("fixed") in ("0", "1"):
+            ctx.count("mtvrp.repaired-checker-model-vs-spec")
+            if f["fixed"] != f.get("feas"):
+                ctx.disagreement("mtvrp: repaired checker model differs from the Spec (contradicts checkR_fixed_iff)",
+                                 {"inst": inst, "actions": sol, "verdicts": f})
         if f.get("feas") == "1" and not acc:
             emit(ctx, "mtvrp:checker-rejects-feasible" + classify_reject(ctx, ad, inst, sol, f),
                           "the real checker raises for a solution that is feasible by the Lean Spec",
@@ -1241,24 +1255,36 @@ def _mods(rel, mod):
 NO_THM = "no theorem yet: correspondence + spec oracle only"
 
 register(Unit("C01", "mtvrp", run_c01, drivers=["drv_mtvrp"],
-              lean_modules=["Rl4co.Props.C01.Mtvrp"],
+              lean_modules=["Rl4co.Props.C01.Mtvrp", "Rl4co.Props.C01.MtvrpSpec", "Rl4co.Proofs.MtvrpGenerated"],
               theorems=[Theorem("Rl4co.Mtvrp.feasible_of_run", "proved",
                                 "every mask-confined finished MTVRP episode is Spec-feasible, for every feature valuation (all 16 variants)"),
                         Theorem("Rl4co.Mtvrp.step_def", "proved", "translator tie: `_step` (reset guard `!=`, clock `distance / speed`) as extracted = the plain form used by the proofs"),
-                        Theorem("Rl4co.Mtvrp.mask_def", "proved", "translator tie: depot rule `~((curr_node == 0) & (sum > 0))` as extracted = the plain form")],
+                        Theorem("Rl4co.Mtvrp.mask_def", "proved", "translator tie: depot rule `~((curr_node == 0) & (sum > 0))` as extracted = the plain form"),
+                        Theorem("Rl4co.Mtvrp.canVisitGen_eq", "proved", "statement-level translation of get_action_mask (Generated/MtvrpEnv.lean) = the model's canVisit"),
+                        Theorem("Rl4co.Mtvrp.stepGen_eq", "proved", "statement-level translation of _step = the model's step"),
+                        Theorem("Rl4co.Mtvrp.feasible_of_run_gen", "proved", "C01 restated on the environment built from the generated definitions"),
+                        Theorem("Rl4co.Mtvrp.exists_feasible_of_wf", "proved", "Spec sanity: every wf instance has a feasible solution (each customer on its own route)"),
+                        Theorem("Rl4co.Mtvrp.wf_solvable", "proved", "… which is canonical, hence a finished mask-confined run (wf metric instance)"),
+                        Theorem("Rl4co.Mtvrp.objective_nonneg", "proved", "Spec sanity: the objective is non-negative when distances are"),
+                        Theorem("Rl4co.Mtvrp.objective_snoc_zero", "proved", "Spec sanity: trailing depot padding does not change the objective")],
               assumptions=[MODEL_NOTE]))
 register(Unit("C02", "mtvrp", run_c02, drivers=["drv_mtvrp"],
-              lean_modules=["Rl4co.Props.C02.Mtvrp", "Rl4co.Props.C18.MtvrpWf"],
+              lean_modules=["Rl4co.Props.C02.Mtvrp", "Rl4co.Props.C18.MtvrpWf", "Rl4co.Proofs.MtvrpGenerated"],
               theorems=[Theorem("Rl4co.Mtvrp.mask_nonempty", "proved", "every state offers an action"),
                         Theorem("Rl4co.Mtvrp.done_stable", "proved", "done is absorbing"),
                         Theorem("Rl4co.Mtvrp.steps_le", "proved",
                                 "an unfinished mask-confined run has at most 2n+1 steps (wf instance: every customer servable on its own, "
                                 "deadlines/capacity/limit may be met with equality)"),
                         Theorem("Rl4co.Mtvrp.progress", "proved", "an unfinished reachable state has an admitted action and stays inside the bound"),
+                        Theorem("Rl4co.Mtvrp.steps_le_gen", "proved", "the step bound restated on the environment built from the generated definitions"),
                         Theorem("Rl4co.Mtvrp.gen_wf_mtvrp", "proved",
                                 "generator post-conditions (C18: mtvrp_window, distance-limit assertion, demands_kind), scaled to ticks ⇒ wf"),
                         Theorem("Rl4co.Mtvrp.gen_steps_le", "proved", "generator ⇒ wf ⇒ every episode on a generated instance finishes within 2n+1 steps"),
-                        Theorem("Rl4co.Mtvrp.gen_progress", "proved", "… and an unfinished state of a generated instance always has an admitted action")],
+                        Theorem("Rl4co.Mtvrp.gen_progress", "proved", "… and an unfinished state of a generated instance always has an admitted action"),
+                        Theorem("Rl4co.Mtvrp.preset_chain", "proved",
+                                "for each of the 16 preset names: preset in the table ⇒ exactly the named features ⇒ generated instances are wf ⇒ ≤ 2n+1 steps, no dead end"),
+                        Theorem("Rl4co.Mtvrp.genPost_genInstF", "proved", "non-vacuity: for every one of the 16 feature sets a generator image with exactly those features exists"),
+                        Theorem("Rl4co.Mtvrp.preset_instance_solvable", "proved", "… and it is wf and finishes within 2n+1 = 3 steps")],
               assumptions=[MODEL_NOTE, "the chain's conclusion is also run on real generator output (float32, every preset)"]))
 register(Unit("C03", "mtvrp", run_c03, drivers=["drv_mtvrp"],
               lean_modules=["Rl4co.Props.C03.Mtvrp"],
@@ -1281,7 +1307,7 @@ register(Unit("C05", "mtvrp", run_c05, drivers=["drv_mtvrp"],
                         Theorem("Rl4co.Mtvrp.reward_set_eq", "proved", "rewards reachable through the mask = { −objective bs | bs feasible }")],
               assumptions=[MODEL_NOTE, "Canonical = no depot→depot move and at least one depot visit (the documented pruning)"]))
 register(Unit("C06", "mtvrp", run_c06, drivers=["drv_mtvrp"],
-              lean_modules=["Rl4co.Props.C06.Mtvrp"],
+              lean_modules=["Rl4co.Props.C06.Mtvrp", "Rl4co.Props.C06.MtvrpRepaired"],
               theorems=[Theorem("Rl4co.Mtvrp.check_complete_partial", "partial",
                                 "Spec-feasible ⇒ checker accepts (any speed), provided that for open routes the depot stays open after the deadlines"),
                         Theorem("Rl4co.Mtvrp.check_sound_partial", "partial",
@@ -1293,7 +1319,10 @@ register(Unit("C06", "mtvrp", run_c06, drivers=["drv_mtvrp"],
                         Theorem("Rl4co.Mtvrp.check_iff", "proved",
                                 "checker accepts ⇔ Spec.Mtvrp.Accepted (= Feasible with exactly the three known omissions): the accepted set, exactly"),
                         Theorem("Rl4co.Mtvrp.check_iff_feasible", "proved", "when the three omissions cannot matter the checker decides feasibility exactly"),
-                        Theorem("Rl4co.Mtvrp.accepted_iff_feasible", "proved", "… and Accepted = Feasible")],
+                        Theorem("Rl4co.Mtvrp.accepted_iff_feasible", "proved", "… and Accepted = Feasible"),
+                        Theorem("Rl4co.Mtvrp.checkR_fixed_iff", "proved", "the checker with its three omissions repaired accepts exactly the feasible solutions"),
+                        Theorem("Rl4co.Mtvrp.checkR_sound", "proved", "any subset of repairs: accepted ⇒ feasible under the provisos of the repairs that are off"),
+                        Theorem("Rl4co.Mtvrp.checkR_complete", "proved", "any subset of repairs: feasible ⇒ accepted (depot-slack proviso only while the open-route repair is off)")],
               assumptions=[MODEL_NOTE, "FINDINGS (not fixed upstream): the checker applies the depot deadline to open routes, never tests the "
                            "backhaul order, and does not test the last route's way back when the list does not end at the depot; each has a "
                            "Lean counterexample, a partial theorem and a witness replayed on the real code"]))
@@ -1308,5 +1337,8 @@ register(Unit("C19", "mtvrp", run_c19, drivers=["drv_mtvrp"],
               lean_modules=["Rl4co.Props.C19.Mtvrp"],
               theorems=[Theorem("Rl4co.Mtvrp.load_data_demand", "proved", "load_data: demand / capacity_original with scale=True, unchanged otherwise"),
                         Theorem("Rl4co.Mtvrp.feasible_scaleDem", "proved", "rescaling both demand kinds and the capacity by k > 0 keeps the feasible set"),
-                        Theorem("Rl4co.Mtvrp.env_scaleDem", "proved", "… and masks, finishing step and reward along every action list")],
+                        Theorem("Rl4co.Mtvrp.env_scaleDem", "proved", "… and masks, finishing step and reward along every action list"),
+                        Theorem("Rl4co.Mtvrp.load_scale_counterexample", "proved", "¬ load_scale_statement: load_data(scale=True) (capacity not rescaled) changes the feasible set"),
+                        Theorem("Rl4co.Mtvrp.load_scale_relaxes", "partial", "the loaded instance is a relaxation of the stored one (stored-feasible ⇒ loaded-feasible)"),
+                        Theorem("Rl4co.Mtvrp.load_scale_repaired", "proved", "with the capacity rescaled as well the loaded instance IS the stored problem")],
               assumptions=[MODEL_NOTE, "FINDING: load_data(scale=True) does not rescale vehicle_capacity (replayed on the real code)"]))
